@@ -4,20 +4,23 @@
 #define CD_K ((int)(vm_last_k & 3))
 #define CD_EXACT (fabs(x) < 4503599627370496.0)
 #define CD_R __CPROVER_return_value
-/*@ clause frame src=property props=C14 */
+/*@ clause frame src=property props=C14 only=enforce */
 __CPROVER_assigns(vm_last_k, cap_d)
+/*@ clause frame.caller src=property only=replace */
+/* the ghost variables of the model / captures are not part of what a caller sees */
+__CPROVER_assigns()
 /*@ clause post.nan src=property props=C13,C16 */
 __CPROVER_ensures(isnan(CD_R) == (isnan(x) || isinf(x)))
 /*@ clause post.range src=property props=C16 */
 __CPROVER_ensures(isnan(CD_R) || (-1.0 <= CD_R && CD_R <= 1.0))
-/*@ clause post.multiples_of_90 src=property props=C16 */
+/*@ clause post.multiples_of_90 src=property props=C16 only=enforce */
 __CPROVER_ensures(!CD_EXACT || cap_d != 0 || (CD_R == (CD_K == 0 ? 1.0 : CD_K == 1 ? 0.0 : CD_K == 2 ? -1.0 : 0.0)))
 /*@ clause post.zero_sign src=standard props=C16 */
 __CPROVER_ensures(isnan(CD_R) || CD_R != 0 || !signbit(CD_R))
-/*@ clause post.multiples_of_45 src=property props=C16 */
+/*@ clause post.multiples_of_45 src=property props=C16 only=enforce */
 __CPROVER_ensures(!CD_EXACT || fabs(cap_d) != 45.0 || fabs(CD_R) == 0x1.6a09e667f3bcdp-1)
-/*@ clause post.multiples_of_30 src=property props=C16 */
+/*@ clause post.multiples_of_30 src=property props=C16 only=enforce */
 __CPROVER_ensures(!CD_EXACT || fabs(cap_d) != 30.0 || fabs(CD_R) == ((CD_K & 1) == 0 ? 0x1.bb67ae8584caap-1 : 0.5))
-/*@ clause post.quadrant_sign src=property props=C16 */
+/*@ clause post.quadrant_sign src=property props=C16 only=enforce */
 __CPROVER_ensures(!CD_EXACT || cap_d == 0 ||
    (CD_K == 0 ? CD_R > 0 : CD_K == 1 ? (cap_d > 0 ? CD_R <= 0 : CD_R >= 0) : CD_K == 2 ? CD_R < 0 : (cap_d > 0 ? CD_R >= 0 : CD_R <= 0)))
